@@ -38,6 +38,8 @@ inductive CTy where
   | dict (fields : CTy)                    -- dict: fields named by its keys
   | fnil
   | fcons (k : String) (t : CTy) (rest : CTy)
+  | prim (cpp : String) (integral : Bool)  -- another arithmetic C++ type a method is DECLARED to return (`short`,
+                                           -- `unsigned int`, `size_t`, `long`, `char`, …): a column of that very type
 deriving Repr, DecidableEq, Inhabited
 
 def assoc {α : Type} : List (String × α) → String → Option α
@@ -49,7 +51,20 @@ declared return type of every method of a class (a table, passed in). -/
 structure Sig where
   colls : List (String × String)
   meths : List (String × List (String × CTy))
+  fns : List (String × CTy) := []        -- user C++ functions (`add_cpp_function`) ↦ declared return type
 deriving Repr, Inhabited
+
+def trimBlanks (cs : List Char) : List Char := ((cs.dropWhile (· == ' ')).reverse.dropWhile (· == ' ')).reverse
+
+def stripConst (cs : List Char) : List Char := if "const ".toList.isPrefixOf cs then cs.drop 6 else cs
+
+/-- The column type a DECLARED C++ return type denotes: a top-level `const` is not part of a value's type
+(`const short` is a `short` column); `int`/`float`/`double`/`bool` are the types of the lattice, any other
+arithmetic type is kept by name (`prim`). -/
+def declTy (text : String) : CTy :=
+  let t := String.ofList (trimBlanks (stripConst (trimBlanks text.toList)))
+  if t = "int" then .int else if t = "float" then .float else if t = "double" then .double
+  else if t = "bool" then .bool else .prim t (t != "long double")
 
 def Sig.collElem (S : Sig) (name : String) : Option String := assoc S.colls name
 def Sig.methods (S : Sig) (cls : String) : Option (List (String × CTy)) := assoc S.meths cls
@@ -82,7 +97,7 @@ def leTy (a b : CTy) : Bool :=
 def CTy.isNum (t : CTy) : Bool := t.rank.isSome
 
 def CTy.isScalar : CTy → Bool
-  | .int | .float | .double | .bool => true
+  | .int | .float | .double | .bool | .prim _ _ => true
   | _ => false
 
 /-! ### typing of the operators -/
@@ -179,6 +194,16 @@ def keyTy (a : CTy) (k : String) : Except String CTy :=
     | some t => .ok t
     | none => .error s!"no key {k}"
   | _ => .error "key of a non-dict"
+
+/-- a user C++ function returns what its metadata declares (`visit_function_ast`: `cpp_return_type`); a function of
+<cmath> returns `double`. The reference semantics knows floating functions only: any other declared type has no
+type here. -/
+def fnTy (S : Sig) (f : String) : Except String CTy :=
+  match assoc S.fns f with
+  | none => .ok .double
+  | some .float => .ok .float
+  | some .double => .ok .double
+  | some _ => .error s!"function {f} is not declared to return float or double"
 
 def allNumOrBool : List CTy → Bool
   | [] => true
@@ -303,9 +328,9 @@ mutual
     | .key a k => match typeOf S Γ a with
       | .error e => .error e
       | .ok t => keyTy t k
-    | .fn _ args => match typeOfs S Γ args with
+    | .fn f args => match typeOfs S Γ args with
       | .error e => .error e
-      | .ok ts => if allNumOrBool ts then .ok .double else .error "function argument is not a scalar"
+      | .ok ts => if allNumOrBool ts then fnTy S f else .error "function argument is not a scalar"
   def typeOfs (S : Sig) (Γ : TyEnv) : List Query → Except String (List CTy)
     | [] => .ok []
     | q :: qs => match typeOf S Γ q with
@@ -383,6 +408,7 @@ def cppName : CTy → String
   | .str => "string"
   | .vec t => "std::vector<" ++ cppName t ++ ">"
   | .obj cls => cls
+  | .prim n _ => n
   | _ => "?"
 
 /-! ### which values fit a type -/
@@ -391,7 +417,7 @@ variable {D : Type}
 
 mutual
   /-- the value fits a column of the type: an integer fits `int`, `float`, `double`; a floating value
-  fits `float` and `double`; a boolean fits `bool`; a sequence fits `vec t` when every element fits `t`;
+  fits `float` and `double` (and a declared floating `prim`); an integer fits any declared `prim`; a boolean fits `bool`; a sequence fits `vec t` when every element fits `t`;
   an object fits its class when every attribute that is a declared method holds a value of the declared
   kind; a tuple/dict value fits field by field (same names, same order). -/
   def hasCTy (S : Sig) : Val D → CTy → Bool
@@ -400,6 +426,8 @@ mutual
     | .int _, .double => true
     | .dbl _, .float => true
     | .dbl _, .double => true
+    | .int _, .prim _ _ => true
+    | .dbl _, .prim _ false => true
     | .bool _, .bool => true
     | .str _, .str => true
     | .obj _ _, .event => true
